@@ -1082,40 +1082,43 @@ class Interp:
         return sub.truth(v)
 
     def st_While(self, s):
+        """`while g: body` against its invariant.  The loop is left (a) before the first iteration, with the state at entry, (b) from
+        the end of an iteration (or a `continue`) after which g is false, with the state reached there, (c) by `break`.  An arbitrary
+        iteration starts from a havocked state that satisfies the invariant and g; at its end the invariant is re-established (also on
+        the way out, so that what follows the loop may use it) and, when another iteration follows, the measure has decreased.  Leaving
+        from where the loop actually ends -- rather than from the havocked head with `invariant and not g` -- keeps `break` and a flag
+        that is set to False equivalent."""
         if self.spec:
             self.oos('loop in spec mode', s)
         ordinal, inv, dec = self.loop_contract(s)
         if s.orelse:
             self.oos('while/else', s)
+        forever = isinstance(s.test, ast.Constant) and s.test.value is True
         for clause in inv:
             self.p.oblige('inv-init', self.spec_eval(clause), s, f'loop#{ordinal} invariant holds on entry: {clause}')
+        if not forever and not self.test(s.test):
+            return  # no iteration at all
         for name in sorted(self.assigned_names(s.body) & set(self.env)):
             self.havoc_var(name, f'L{ordinal}')
         for clause in inv:
             self.p.assume(self.spec_eval(clause))
+        if not forever and not self.test(s.test):
+            raise PathEnd()  # an iteration starts only when the guard holds
         m0 = self.spec_int(dec) if dec else None
-        if self.test(s.test):
-            try:
-                self.block(s.body)
-            except Cont:
-                pass
-            except Brk:
-                return
-            for clause in inv:
-                self.p.oblige('inv-keep', self.spec_eval(clause), s, f'loop#{ordinal} invariant preserved: {clause}')
-            if dec:
-                m1 = self.spec_int(dec)
-                # the measure has to decrease only when another iteration follows (a loop may end by making its guard false)
-                goal = z3.And(m0 >= 0, m1 < m0)
-                if not (isinstance(s.test, ast.Constant) and s.test.value is True):
-                    try:
-                        again = self.spec_eval(ast.unparse(s.test))
-                        goal = z3.Implies(again if z3.is_expr(again) else z3.BoolVal(bool(again)), goal)
-                    except OutOfSubset:
-                        pass  # a guard that is not a plain expression: keep the stronger obligation
-                self.p.oblige('decreases', goal, s, f'loop#{ordinal} measure {dec} decreases and is bounded', tag='property')
-            raise PathEnd()
-        # guard false: fall through with invariant ∧ ¬guard
+        try:
+            self.block(s.body)
+        except Cont:
+            pass
+        except Brk:
+            return
+        for clause in inv:
+            self.p.oblige('inv-keep', self.spec_eval(clause), s, f'loop#{ordinal} invariant preserved: {clause}')
+        if not forever and not self.test(s.test):
+            return  # the loop ends here: go on with the state just reached
+        if dec:
+            m1 = self.spec_int(dec)
+            self.p.oblige('decreases', z3.And(m0 >= 0, m1 < m0), s, f'loop#{ordinal} measure {dec} decreases and is bounded', tag='property')
+        raise PathEnd()
 
     def spec_int(self, text):
         env = dict(self.env)
